@@ -6,25 +6,26 @@ From Coq Require Import List Arith Bool.
 From GV Require Import C16.Model.
 Import ListNotations.
 
-Record c16case := mkCase { c_body : cstmts; c_obs : list (bop * nat * nat * nat) }.
+Record c16case := mkCase { c_nlabels : nat; c_body : cstmts; c_obs : list (bop * nat * nat * nat * nat) }.
 
 Definition bop_eqb (a b : bop) : bool :=
   match a, b with
   | OPush, OPush | OBinary, OBinary | OUnary, OUnary | OEndStmt, OEndStmt | ONop, ONop
   | OOpen, OOpen | OOpenFn, OOpenFn | OThenOpen, OThenOpen | OThenPop, OThenPop | OThenAll, OThenAll
   | OElse, OElse | OClose, OClose | OClose2, OClose2 | OCloseFn, OCloseFn | OCloseFnPush, OCloseFnPush => true
-  | OCall n, OCall m | OStmt n, OStmt m => Nat.eqb n m
+  | ONewLabel, ONewLabel => true
+  | OCall n, OCall m | OStmt n, OStmt m | OInlineStart n, OInlineStart m | OInlineEnd n, OInlineEnd m => Nat.eqb n m
   | _, _ => false
   end.
 
 (* index of the first operation where something differs; None = all equal *)
-Fixpoint walk (i : nat) (s : bst) (ops : list bop) (obs : list (bop * nat * nat * nat)) : option nat :=
+Fixpoint walk (i : nat) (s : bst) (ops : list bop) (obs : list (bop * nat * nat * nat * nat)) : option nat :=
   match ops, obs with
   | [], [] => None
-  | o :: r, (o', k, sc, f) :: r' =>
+  | o :: r, (o', k, sc, f, nl) :: r' =>
     if bop_eqb o o' then
       match bstep s o with
-      | Some s' => if Nat.eqb (stk s') k && Nat.eqb (scope s') sc && Nat.eqb (fn s') f
+      | Some s' => if Nat.eqb (stk s') k && Nat.eqb (scope s') sc && Nat.eqb (fn s') f && Nat.eqb (nlab s') nl
                    then walk (S i) s' r r' else Some i
       | None => Some i
       end
@@ -32,7 +33,7 @@ Fixpoint walk (i : nat) (s : bst) (ops : list bop) (obs : list (bop * nat * nat 
   | _, _ => Some i
   end.
 
-Definition case_bad (c : c16case) : option nat := walk 0 init_st (compile_func (c_body c)) (c_obs c).
+Definition case_bad (c : c16case) : option nat := walk 0 init_st (compile_func (c_nlabels c) (c_body c)) (c_obs c).
 
 Fixpoint bad_from (i : nat) (cs : list c16case) : list (nat * nat) :=
   match cs with
